@@ -1,12 +1,27 @@
 import Driver.CifArg
 import CifModel.Model.Parser
+import CifModel.Model.ParserTrace
+import CifModel.Model.ParserStoreOps
 import CifModel.Model.Fill
 /-
   family `parse` (C03; also the request language of `parsedoc` (C01) and `defect` (C12)):
 
     parse <dia 1|2> <max_frame_depth> <line_folding_modifier> <text_prefixing_modifier> <extra_ws hex|-> <extra_eol hex|->
           <not_utf8 0|1> <policy> <target n|e|p> <hex document> [pre <cif tokens …>] [| annotation …]
-      ↦ ps rc=<return value> n=<callback invocations> log=<code>:<line>,…|- cif=<canonical dump>|~
+      ↦ ps rc=<return value> n=<callback invocations> log=<code>:<line>,…|- ops=<b>,<f>,<s>,<l>,<p>,<r> seq=<call,call,…|-> sto=<…> cif=<canonical dump>|~
+
+  `ops` = the numbers of successful store calls the instrumented parser (Model/ParserTrace.lean) records: blocks created, save
+  frames created, cif_container_set_value, cif_container_create_loop, cif_loop_add_packet, cif_container_prune — the executor
+  counts the same calls of the real parser; `seq` = the same calls in order of occurrence: a letter
+  (b f s l p r) and a digest of the name argument (length of the block / frame code or data name in UTF-16 units, number of names
+  of the loop).
+  `sto` (model side only; fresh target): the trace translated into a history of the STORE model (Model/ParserStoreOps.storeOps) and
+  run through `Store.step` from a new CIF: `ok` = every call returned CIF_OK and the store then shows (`Store.abs`) exactly the CIF
+  the parser model built (same enumeration orders); `ord` = the same content in another order; `BAD…` = the composition of the
+  two models fails on this input (a disagreement for the generator's `agree`; `BADnumb`: a value handed to the store contains a
+  number object — the hypothesis of C07_parser_route would not be the parser's own guarantee); `skip` = the trace contains a call that
+  `Store.Op` cannot express (lenient creation), there is no target, or the pre-existing content is not buildable by
+  `cifOps` (for a pre-filled target the history is `cifOps initial ++ trace`).
 
   (formats: harness/x_parse.c).  The units the scanner sees are those of the one-fill case of Model/Fill.lean
   (get_first_char, then one get_more_chars that reads everything).  Extra whitespace / end-of-line characters of the option
@@ -77,8 +92,27 @@ def answer (args : List String) : Option String :=
                       notUtf8 := nutf', store := store, norm := lowerAscii, normKey := id }
     let units := substExtra ws eol (seenUnits raw)
     let out := parse o policy initial units
+    let tr := storeTrace o policy initial units
+    let cnt (p : SOp → Bool) : Nat := (tr.filter p).length
+    let ops := s!"{cnt (fun | .mkBlock .. => true | _ => false)},{cnt (fun | .mkFrame .. => true | _ => false)},{cnt (fun | .setVal .. => true | _ => false)},{cnt (fun | .mkLoop .. => true | _ => false)},{cnt (fun | .addPkt .. => true | _ => false)},{cnt (fun | .prune .. => true | _ => false)}"
+    let seq := ",".intercalate (tr.map fun
+      | .mkBlock code _ => s!"b{code.length}" | .mkFrame _ code _ => s!"f{code.length}" | .setVal _ n _ => s!"s{n.length}"
+      | .mkLoop _ names => s!"l{names.length}" | .addPkt .. => "p" | .prune .. => "r")
+    let sto : String :=
+      if !(tr.all fun op => op.values.all numbFree) then "BADnumb" else
+      if tgt == "n" then "skip" else
+      match (cifOps o initial).bind (fun pre => storeOps o (pre ++ tr)) with
+      | none => "skip"
+      | some sops =>
+        match storeRun sops with
+        | (none, _) => "BADnocif"
+        | (some st, okAll) =>
+          if !okAll then "BADrc"
+          else if CifArg.showCif (Store.abs st.db) == CifArg.showCif out.cif then "ok"
+          else if CifArg.showCanonCif (Store.abs st.db) == CifArg.showCanonCif out.cif then "ord"
+          else "BAD"
     let dump := if store then (let t := CifArg.showCanonCif out.cif; if t.isEmpty then " -" else t) else "~"
-    pure s!"ps rc={out.rc} n={out.log.length} log={joinOrDash (out.log.map fun r => s!"{r.code}:{r.line}")} cif={dump}"
+    pure s!"ps rc={out.rc} n={out.log.length} log={joinOrDash (out.log.map fun r => s!"{r.code}:{r.line}")} ops={ops} seq={if seq.isEmpty then "-" else seq} sto={sto} cif={dump}"
   | _ => none
 
 def handle : Handler := answer
